@@ -95,9 +95,9 @@ theorem asyncAttrsOk_genTraitDef (opts ind depMode vis ident tg sup fns mode) (i
   apply asyncAttrsOk_append
   · exact generated_attrs_not_asyncTrait opts ind mode fns depMode
   · intro a ha hk
-    simp [reappliedSubs, ha, hk]
+    exact reappliedSubs_async ha hk
   · intro a ha
-    exact (List.mem_filter.mp ha).1
+    exact mem_reappliedSubs ha
 
 theorem asyncAttrsOk_filter (itemAttrs : List Attr) :
     asyncAttrsOk itemAttrs (itemAttrs.filter (fun a => a.subKind == .asyncTrait)) = true := by
@@ -280,7 +280,7 @@ theorem delegTrait_ok (opts : Opts) (ind : TraitIndirection) (t : TraitItem)
       (fun tf => GenMember.fn tf.attrs (makeTraitFnSig tf.sig (traitImplSubAttrs t) (noMockOpts opts)) none))
     (ha : attrs = traitImplSubAttrs t ++
       (unimockAttrOf (noMockOpts opts) ind .rawTrait ((fs.map traitFnOf).map g) ++ entraitAttrOf .generic ++
-        mockallAttrOf (noMockOpts opts) ++ reappliedSubs (traitImplSubAttrs t))) :
+        mockallAttrOf (noMockOpts opts) ++ reappliedSubs .rawTrait (traitImplSubAttrs t))) :
     (zipAll (asyncDeclOkM (containsAsyncTrait t.attrs) opts.futureSendValue) (fs.map (·.sig))
         (members.filter (fun m => m.sig?.isSome)) &&
       asyncAttrsOk t.attrs attrs) = true := by
@@ -304,7 +304,7 @@ theorem delegTrait_ok (opts : Opts) (ind : TraitIndirection) (t : TraitItem)
           exact generated_attrs_not_asyncTrait (noMockOpts opts) ind .rawTrait ((fs.map traitFnOf).map g) .generic a
             (by simpa [List.mem_append, or_assoc] using ha)
         · right
-          have := (List.mem_filter.mp ha).1
+          have := mem_reappliedSubs ha
           exact (List.mem_filter.mp this).1
 
 theorem staticImplFn_sig (tf : TraitFn) :
